@@ -77,8 +77,9 @@ class Disconnection:
       if isinstance(ref.line, gfapy.Line):
         ref.line._update_references(self, None, k)
     elif isinstance(ref, list):
-      for i in range(len(ref)):
-       self._remove_backreference(ref[i], k)
+      # (a copy, as the list shrinks if the line refers to itself)
+      for elem in list(ref):
+       self._remove_backreference(elem, k)
 
   def _disconnect_dependent_line(self, ref):
     if isinstance(ref, gfapy.Line):
